@@ -8,6 +8,7 @@
    asynchronous deviations (Modules.cfg): every theorem holds for both. *)
 From Coq Require Import List Arith Bool Lia.
 From C17 Require Import Modules Spec_C17 Proofs_C17.
+From C17 Require Import DeepAsync_C17 DeepJobs_C17 DeepThm_C17.
 Import ListNotations.
 
 (* Evaluate() on a synchronous graph never panics (no Rust assert!/unreachable!/expect fires), never runs out of
@@ -227,6 +228,85 @@ Theorem default_fuel_enough : forall g, length g < default_fuel g.
 Proof. intros g. unfold default_fuel. lia. Qed.
 Check default_fuel_enough : forall g, length g < default_fuel g.
 Print Assumptions default_fuel_enough.
+
+(* ------------------------------------------------------------------------------------------------------------ *)
+(* Deepening round: graphs WITH top-level await.  `AI` (DeepAsync_C17.v) is an invariant of the whole evaluation
+   machinery — InnerModuleEvaluation with its asynchronous arms, ExecuteAsyncModule, the promise jobs, AsyncModule-
+   ExecutionFulfilled/Rejected, GatherAvailableAncestors — over the log, the statuses, the per-module pending counts and
+   the resume jobs in the queue.  It holds for every graph, on every variant of Modules.cfg in which a module keeps its
+   own pending_async_dependencies (the repaired tree, `cfR`); on the old variant it is false (a popped cycle member that
+   is already executing gets the root's positive count and is executed a second time when that count reaches 0). *)
+
+(* every body starts at most once and ends at most once, and only ends after it started — over ANY interleaving of
+   Evaluate() calls (any entry modules) and promise-job drains, for ANY graph (top-level await, cycles, throws),
+   whatever the individual operations return (even a panic or fuel exhaustion leaves the invariant intact) *)
+Theorem each_body_at_most_once_async : forall cf g fuel ops s, cf_own_pending cf = true -> AI s ->
+  NoDup (slog (run_aops cf fuel g s ops)) /\
+  forall x, In (REnd x) (slog (run_aops cf fuel g s ops)) -> In (RStart x) (slog (run_aops cf fuel g s ops)).
+Proof. exact L_once_async. Qed.
+Check each_body_at_most_once_async : forall cf g fuel ops s, cf_own_pending cf = true -> AI s ->
+  NoDup (slog (run_aops cf fuel g s ops)) /\
+  forall x, In (REnd x) (slog (run_aops cf fuel g s ops)) -> In (RStart x) (slog (run_aops cf fuel g s ops)).
+Print Assumptions each_body_at_most_once_async.
+
+(* the invariant holds in every state in which nothing has been logged and no job is queued: the initial state, any
+   state right after linking *)
+Theorem async_invariant_initially : forall s, gs_log s = [] -> gs_jobs s = [] -> AI s.
+Proof. exact AI_quiet_state. Qed.
+Check async_invariant_initially : forall s, gs_log s = [] -> gs_jobs s = [] -> AI s.
+Print Assumptions async_invariant_initially.
+
+Theorem async_invariant_preserved : forall cf g fuel, cf_own_pending cf = true ->
+  (forall s m s' r, AI s -> evaluate cf fuel g s m = (s', r) -> AI s') /\
+  (forall s s' r, AI s -> run_jobs cf fuel g s = (s', r) -> AI s').
+Proof. intros cf g fuel H. split; [intros; eapply evaluate_AI; eauto|intros; eapply run_jobs_AI; eauto]. Qed.
+Check async_invariant_preserved : forall cf g fuel, cf_own_pending cf = true ->
+  (forall s m s' r, AI s -> evaluate cf fuel g s m = (s', r) -> AI s') /\
+  (forall s s' r, AI s -> run_jobs cf fuel g s = (s', r) -> AI s').
+Print Assumptions async_invariant_preserved.
+
+(* evaluating an entry module again — while its graph is still evaluating asynchronously, or after it settled —
+   returns the recorded promise and changes nothing *)
+Theorem evaluate_idempotent_async : forall cf g fuel s m a s' c, cf_own_pending cf = true -> AI s ->
+  status_of s m = Linked a -> evaluate cf fuel g s m = (s', ROk c) -> evaluate cf fuel g s' m = (s', ROk c).
+Proof. intros cf g fuel s m a s' c H. apply evaluate_idem_async. exact H. Qed.
+Check evaluate_idempotent_async : forall cf g fuel s m a s' c, cf_own_pending cf = true -> AI s ->
+  status_of s m = Linked a -> evaluate cf fuel g s m = (s', ROk c) -> evaluate cf fuel g s' m = (s', ROk c).
+Print Assumptions evaluate_idempotent_async.
+
+(* the repaired finding tla-cycle-never-settles: on the old variant (cfg0) the cycle m1 <-> m2 above the top-level-await
+   module m0 leaves the evaluation promise pending for ever; on the repaired variant it is fulfilled *)
+Theorem tla_cycle_never_settles_old_refuted :
+  snd (run_op cfg0 (default_fuel g_witness) g_witness gs0 2) = OPending /\
+  snd (run_op cfR (default_fuel g_witness) g_witness gs0 2) = OFulfilled.
+Proof. exact L_refuted. Qed.
+Check tla_cycle_never_settles_old_refuted :
+  snd (run_op cfg0 (default_fuel g_witness) g_witness gs0 2) = OPending /\
+  snd (run_op cfR (default_fuel g_witness) g_witness gs0 2) = OFulfilled.
+Print Assumptions tla_cycle_never_settles_old_refuted.
+
+(* BOUNDED (finite domain, fully enumerated by vm_compute; the bound is in the name): all 32768 graphs over exactly 3
+   modules without throwing bodies — every ordered subset of {0,1,2} as request list, each module with or without a
+   top-level await — settle: load; link; evaluate; drain fulfils the promise, for every entry *)
+Theorem settles_partial_3_modules : forall g, In g graphs3 -> forall m, m < 3 ->
+  snd (run_op cfR (default_fuel g) g gs0 m) = OFulfilled.
+Proof. exact L_settles3. Qed.
+Check settles_partial_3_modules : forall g, In g graphs3 -> forall m, m < 3 ->
+  snd (run_op cfR (default_fuel g) g gs0 m) = OFulfilled.
+Print Assumptions settles_partial_3_modules.
+
+(* BOUNDED: all 262144 graphs over exactly 3 modules, each module with or without a top-level await and with or without a
+   throwing body, entry 0 (the set is closed under renaming): the outcome is "rejected by a reachable throwing module, or
+   fulfilled when none is reachable" (never pending, never a panic), and in the log every body starts only after all of
+   its non-cyclic dependencies have ended *)
+Theorem error_rejects_and_deps_first_async_partial_3_modules : forall g, In g graphs3t ->
+  outcome_ok g 0 (snd (run_op cfR (default_fuel g) g gs0 0)) = true /\
+  dfb g [] (slog (fst (run_op cfR (default_fuel g) g gs0 0))) = true.
+Proof. exact L_full3. Qed.
+Check error_rejects_and_deps_first_async_partial_3_modules : forall g, In g graphs3t ->
+  outcome_ok g 0 (snd (run_op cfR (default_fuel g) g gs0 0)) = true /\
+  dfb g [] (slog (fst (run_op cfR (default_fuel g) g gs0 0))) = true.
+Print Assumptions error_rejects_and_deps_first_async_partial_3_modules.
 
 (* a diamond under a two-cycle with a throwing leaf: 0 -> 1 -> {0, 2, 3}, 2 -> 3, 3 throws *)
 Example ex_graph : graph :=
